@@ -1,5 +1,252 @@
-/- Model for C03 (core Lean only, no Mathlib). -/
+/-
+Model of reprojection planning, `odc/geo/overlap.py` (+ the numeric helpers of
+`odc/geo/math.py` it calls and `roi_boundary` / `scaled_up_roi` of `odc/geo/roi.py`).
+Core Lean only.  Reals are exact rationals; an ROI is `(yslice, xslice)`, a shape `(ny, nx)`.
+
+The model follows the code *after* the three `fix:` commits of branch `fix-C03`
+(align=0 normalised to None; `_can_paste` uses `>= stol`; alignment can not revive an empty
+overlap in `_relative_rois`).
+-/
 import OdcGeo.Model.IO
+import OdcGeo.Model.Affine
+import OdcGeo.Model.C17
 namespace OdcGeo.C03
+open OdcGeo.C17
+
+abbrev ROI := NSlice × NSlice
+abbrev Shape := Int × Int
+
+def emptyROI : ROI := (⟨0, 0⟩, ⟨0, 0⟩)
+
+/-- `roi_is_empty` on a normalised 2-d roi (roi.py:478-489) -/
+def ROI.isEmpty (r : ROI) : Bool := decide (r.1.stop - r.1.start ≤ 0) || decide (r.2.stop - r.2.start ≤ 0)
+
+/-! ### numeric helpers (math.py:31-99, 155-170, 352-380) -/
+
+def rabs (x : Rat) : Rat := if x < 0 then -x else x
+
+/-- C `trunc` / Python `int(float)` -/
+def trunc (x : Rat) : Int := if 0 ≤ x then x.floor else x.ceil
+
+/-- `fmod(x, 1.0)`: sign of `x`, magnitude below 1 -/
+def fmod1 (x : Rat) : Rat := x - (trunc x : Rat)
+
+/-- `split_float` (finite input) -/
+def splitFloat (x : Rat) : Rat × Rat :=
+  let p := fmod1 x
+  let w := x - p
+  if p > 1 / 2 then (w + 1, p - 1)
+  else if p < -(1 / 2) then (w - 1, p + 1)
+  else (w, p)
+
+/-- `maybe_int(x, tol)` (finite input) -/
+def maybeInt (x tol : Rat) : Rat :=
+  let wp := splitFloat x
+  if rabs wp.2 < tol then wp.1 else x
+
+/-- `is_almost_int(x, tol)` (finite input) -/
+def isAlmostInt (x tol : Rat) : Bool :=
+  let p := rabs (fmod1 x)
+  let p := if p > 1 / 2 then 1 - p else p
+  decide (p < tol)
+
+/-- `snap_scale(s, tol)`.  The division `1 / s_inv_snapped` can not fail: it is reached only
+for `tol ≤ |s| < 1 - tol`, where `|1/s| > 1` rounds to a non-zero integer. -/
+def snapScale (s tol : Rat) : Rat :=
+  if rabs s ≥ 1 - tol then maybeInt s tol
+  else if rabs s < tol then s
+  else
+    let sInv := 1 / s
+    let wp := splitFloat sInv
+    if rabs wp.2 < tol then 1 / wp.1 else s
+
+/-- exact values of the Python doubles used as default tolerances -/
+def tol1em10 : Rat := mkRat 7737125245533627 77371252455336267181195264      -- 1e-10
+def tol1em8 : Rat := mkRat 6189700196426902 618970019642690137449562112       -- 1e-8
+def tol1em3 : Rat := mkRat 1152921504606847 1152921504606846976               -- 1e-3
+
+/-- `is_affine_st(A, tol=1e-10)` -/
+def isAffineST (A : Aff) (tol : Rat := tol1em10) : Bool :=
+  decide (rabs A.b < tol) && decide (rabs A.d < tol)
+
+/-- `snap_affine(A, ttol, stol, tol=1e-8)` -/
+def snapAffine (A : Aff) (ttol stol : Rat) (tol : Rat := tol1em8) : Aff :=
+  if rabs A.b > tol ∨ rabs A.d > tol then A
+  else ⟨snapScale A.a stol, 0, maybeInt A.c ttol, 0, snapScale A.e stol, maybeInt A.f ttol⟩
+
+/-- `get_scale_from_linear_transform(A)` (overlap.py:192-202 through `decompose_rws`,
+math.py:383-436): with `WS = cholesky(AᵀA)ᵀ` the diagonal is `(√(a²+d²), ±|det|/√(a²+d²))`.
+The square root `n` is an input (`n*n = a²+d²`, `0 < n` is a hypothesis of the theorems; the
+driver supplies the exact rational root). -/
+def scale2 (A : Aff) (n : Rat) : Rat × Rat := (n, rabs A.det / n)
+
+/-- `_pick_read_scale(scale, tol=1e-3)` (overlap.py:340-356) -/
+def pickReadScale (scale : Rat) (tol : Rat := tol1em3) : Res Int :=
+  if ¬ (scale > 0) then .error .assertion
+  else if scale < 1 then .ok 1
+  else .ok (trunc (maybeInt scale tol))
+
+/-! ### `compute_axis_overlap`, `box_overlap` (overlap.py:239-323) -/
+
+/-- lines 259-286: the body after mirroring, `s > 0` -/
+def axisPos (Ns Nd : Int) (s t : Rat) : NSlice × NSlice :=
+  let s_ := 1 / s
+  let t_ := -t * s_
+  let inn : Int × Int := if t < 0 then (0, min t_.floor Nd) else (min t.floor Ns, 0)
+  let a := ((Nd : Rat) * s + t).ceil
+  let out : Int × Int :=
+    if a ≤ Ns then (max a 0, Nd) else (Ns, max 0 (((Ns : Rat) * s_ + t_).ceil))
+  (⟨inn.1, out.1⟩, ⟨inn.2, out.2⟩)
+
+/-- `compute_axis_overlap(Ns, Nd, s, t)` → `(src, dst)`; `s = 0` fails the `assert s > 0`. -/
+def axisOverlap (Ns Nd : Int) (s t : Rat) : Res (NSlice × NSlice) :=
+  if s < 0 then
+    let r := axisPos Ns Nd (-s) ((Ns : Rat) - t)
+    .ok (⟨Ns - r.1.stop, Ns - r.1.start⟩, r.2)
+  else if s > 0 then .ok (axisPos Ns Nd s t)
+  else .error .assertion
+
+/-- `box_overlap(src_shape, dst_shape, ST)` → `(roi_src, roi_dst)`; y axis first (as the code). -/
+def boxOverlap (src dst : Shape) (ST : Aff) : Res (ROI × ROI) :=
+  match axisOverlap src.1 dst.1 ST.e ST.f with
+  | .error e => .error e
+  | .ok yy =>
+    match axisOverlap src.2 dst.2 ST.a ST.c with
+    | .error e => .error e
+    | .ok xx => .ok ((yy.1, xx.1), (yy.2, xx.2))
+
+/-! ### `_can_paste` (overlap.py:359-394) -/
+
+def canPaste (A : Aff) (n : Rat) (stol ttol : Rat) : Res Bool :=
+  if ¬ isAffineST A then .ok false
+  else
+    let sc := scale2 A n
+    let scale := min sc.1 sc.2
+    if ¬ isAlmostInt scale stol then .ok false
+    else
+      match pickReadScale scale with
+      | .error e => .error e
+      | .ok rs =>
+        let k : Rat := 1 / (rs : Rat)
+        let A_ := Aff.scale k k * A
+        if rabs (rabs A_.a - 1) ≥ stol ∨ rabs (rabs A_.e - 1) ≥ stol then .ok false
+        else if ¬ (isAlmostInt A_.c ttol ∧ isAlmostInt A_.f ttol) then .ok false
+        else .ok true
+
+/-! ### `roi_boundary` (roi.py:377-393), `edge_index` (math.py:508-536), `_relative_rois` -/
+
+/-- `np.linspace(a, b, n)` for `n ≥ 2` (float32 is exact below 2^24 for the quarter points) -/
+def linspace (a b : Int) (n : Nat) : List Rat :=
+  (List.range n).map fun (i : Nat) =>
+    (a : Rat) + ((i : Int) : Rat) * (((b - a : Int) : Rat) / (((n - 1 : Nat) : Int) : Rat))
+
+/-- `edge_index((ny, nx))`, open ring, for `nx, ny ≥ 2`: `(iy, ix)` pairs -/
+def edgeIndex (nx ny : Nat) : List (Nat × Nat) :=
+  ((List.range nx).map fun ix => (0, ix)) ++
+  ((List.range (ny - 1)).map fun k => (k + 1, nx - 1)) ++
+  ((List.range (nx - 1)).map fun k => (ny - 1, nx - 2 - k)) ++
+  ((List.range (ny - 2)).map fun k => (ny - 2 - k, 0))
+
+/-- `roi_boundary(roi, pts_per_side)` → list of `(x, y)` -/
+def roiBoundary (roi : ROI) (pps : Nat) : List (Rat × Rat) :=
+  let xs := linspace roi.2.start roi.2.stop pps
+  let ys := linspace roi.1.start roi.1.stop pps
+  (edgeIndex pps pps).filterMap fun (iy, ix) =>
+    match xs[ix]?, ys[iy]? with
+    | some x, some y => some (x, y)
+    | _, _ => none
+
+/-- a point transform between pixel planes; may produce non-finite coordinates -/
+abbrev PtTr := Rat × Rat → Coord × Coord
+
+def linTr (A : Aff) : PtTr := fun p => (.fin (A.apply p).1, .fin (A.apply p).2)
+
+/-- `_relative_rois(src, dst, tr, pts_per_side, padding, align)`; `back = tr.back` maps
+destination pixels to source pixels, `fwd = tr` the other way. -/
+def relativeRois (src dst : Shape) (back fwd : PtTr) (pps : Nat) (padding : Int)
+    (align : Option Int) : ROI × ROI :=
+  let pts := (roiBoundary (⟨0, dst.1⟩, ⟨0, dst.2⟩) pps).map back
+  let roiSrc := fromPoints pts src.1 src.2 padding align
+  let roiSrc :=
+    if align.isSome ∧ ¬ ROI.isEmpty roiSrc ∧ ROI.isEmpty (fromPoints pts src.1 src.2 padding none)
+    then emptyROI else roiSrc
+  if ROI.isEmpty roiSrc then (roiSrc, emptyROI)
+  else
+    let xy := (roiBoundary roiSrc pps).map fwd
+    (roiSrc, fromPoints xy dst.1 dst.2 0 none)
+
+/-! ### `compute_reproject_roi` (overlap.py:419-555) -/
+
+structure Plan where
+  roiSrc : ROI
+  roiDst : ROI
+  pasteOk : Bool
+  readShrink : Int
+  scale : Rat
+  scale2 : Rat × Rat
+  deriving Repr
+
+/-- `GeoBox.compute_zoom_out(factor).shape` on one axis (geobox.py:341-344) -/
+def zoomOutDim (n rs : Int) : Int := max 1 (((n : Rat) / (rs : Rat)).ceil)
+
+def scaledUpROI (r : ROI) (k : Int) : ROI := (scaledUpSlice r.1 k none, scaledUpSlice r.2 k none)
+
+/-- Same-CRS branch (lines 517-555).  `fwd = tr.A` maps source to destination pixels,
+`A = tr.back.A` destination to source, `n = √(A.a² + A.d²)`. -/
+def reprojectLinear (src dst : Shape) (fwd A : Aff) (n : Rat) (ttol stol : Rat)
+    (padding align : Option Int) : Res Plan :=
+  let align := if align = some 0 then none else align
+  let sc := scale2 A n
+  let scale := min sc.1 sc.2
+  match pickReadScale scale with
+  | .error e => .error e
+  | .ok rs =>
+    let tightOk := (align = none) ∧ (padding = none ∨ padding = some 0)
+    let paste : Res Bool := if tightOk then canPaste A n stol ttol else .ok false
+    match paste with
+    | .error e => .error e
+    | .ok true =>
+      if rs = 1 then
+        match boxOverlap src dst (snapAffine A ttol stol) with
+        | .error e => .error e
+        | .ok (rsrc, rdst) => .ok ⟨rsrc, rdst, true, rs, scale, sc⟩
+      else
+        let k : Rat := 1 / (rs : Rat)
+        let src' : Shape := (zoomOutDim src.1 rs, zoomOutDim src.2 rs)
+        match boxOverlap src' dst (snapAffine (Aff.scale k k * A) ttol stol) with
+        | .error e => .error e
+        | .ok (rsrc, rdst) => .ok ⟨scaledUpROI rsrc rs, rdst, true, rs, scale, sc⟩
+    | .ok false =>
+      let padding := match padding with | none => 1 | some p => p
+      let r := relativeRois src dst (linTr A) (linTr fwd) 2 padding align
+      .ok ⟨r.1, r.2, false, rs, scale, sc⟩
+
+/-- `native_pix_transform` for two GeoBoxes of the same CRS with pixel→world transforms `S`
+and `D` (`_same_crs_pix_transform`): `fwd = ~D * S`, `A = ~fwd`. -/
+def reprojectGeoBoxes (src dst : Shape) (S D : Aff) (n : Rat) (ttol stol : Rat)
+    (padding align : Option Int) : Res Plan :=
+  match D.inv? with
+  | .error e => .error e
+  | .ok Di =>
+    let fwd := Di * S
+    match fwd.inv? with
+    | .error e => .error e
+    | .ok A => reprojectLinear src dst fwd A n ttol stol padding align
+
+/-- Cross-CRS branch (lines 491-515): `back`/`fwd` stand for the pyproj-based
+`GbxPointTransform`, `scaleAt` for `get_scale_at_point(·, tr.back)`. -/
+def reprojectNonlinear (src dst : Shape) (back fwd : PtTr) (scaleAt : Rat × Rat → Rat × Rat)
+    (padding align : Option Int) : Res Plan :=
+  let align := if align = some 0 then none else align
+  let padding := match padding with | none => 1 | some p => p
+  let r := relativeRois src dst back fwd 5 padding align
+  if ¬ ROI.isEmpty r.2 then
+    let c : Rat × Rat := (((r.2.2.start + r.2.2.stop : Int) : Rat) / 2, ((r.2.1.start + r.2.1.stop : Int) : Rat) / 2)
+    let sc := scaleAt c
+    let scale := min sc.1 sc.2
+    match pickReadScale scale with
+    | .error e => .error e
+    | .ok rs => .ok ⟨r.1, r.2, false, rs, scale, sc⟩
+  else .ok ⟨r.1, r.2, false, 1, 0, (0, 0)⟩
 
 end OdcGeo.C03
